@@ -59,6 +59,7 @@ type c13World struct {
 	dev      []int
 	clock    int
 	maBinary string
+	v6decoy  bool   // the policies of this world hold an IPv6-only device (then code/ipv6 exists in every policy)
 	others   string // what is wrong with the listing of the other devices (empty = all right)
 }
 
@@ -74,7 +75,10 @@ func (w *c13World) writePolicy(n int, code []int, emptyFiles bool) {
 	walked := false
 	for i, sl := range c13Slots {
 		p := filepath.Join(pdir, sl[0], "dev"+sl[1])
-		os.MkdirAll(filepath.Dir(p), 0755)
+		if sl[0] == "code" || code[i] != 0 || emptyFiles && i%2 == 1 {
+			// code/ipv6 and code/ipv4 exist only in policies that have something in them
+			os.MkdirAll(filepath.Dir(p), 0755)
+		}
 		if code[i] != 0 {
 			os.WriteFile(p, []byte(fmt.Sprintf("content %d of slot %d\n", code[i], i)), 0644)
 			if sl[1] == "" {
@@ -94,8 +98,10 @@ func (w *c13World) writePolicy(n int, code []int, emptyFiles bool) {
 	os.WriteFile(filepath.Join(pdir, "code", "aaa"), []byte(fmt.Sprintf("aaa %d\n", n)), 0644)
 	os.WriteFile(filepath.Join(pdir, "code", "devel"), []byte(fmt.Sprintf("devel %d\n", n)), 0644)
 	os.WriteFile(filepath.Join(pdir, "code", "dev.info"), []byte("{}\n"), 0644)
-	os.MkdirAll(filepath.Join(pdir, "code", "ipv6"), 0755)
-	os.WriteFile(filepath.Join(pdir, "code", "ipv6", "zzz6"), []byte(fmt.Sprintf("zzz6 %d\n", n)), 0644)
+	if w.v6decoy {
+		os.MkdirAll(filepath.Join(pdir, "code", "ipv6"), 0755)
+		os.WriteFile(filepath.Join(pdir, "code", "ipv6", "zzz6"), []byte(fmt.Sprintf("zzz6 %d\n", n)), 0644)
+	}
 	status.SetApprove(w.cfg, "devel", fmt.Sprintf("p%d", n), false)
 	cur := filepath.Join(w.dir, "policies", "current")
 	os.Remove(cur)
@@ -209,7 +215,7 @@ func (w *c13World) observe() string {
 			if names["aaa"] != 1 {
 				w.others += fmt.Sprintf(" aaa printed %d times (never approved: must be printed once)", names["aaa"])
 			}
-			if names["zzz6"] != 1 {
+			if w.v6decoy && names["zzz6"] != 1 || !w.v6decoy && names["zzz6"] != 0 {
 				w.others += fmt.Sprintf(" zzz6 (IPv6 only) printed %d times (never approved: must be printed once)", names["zzz6"])
 			}
 			if names["devel"] != 0 {
@@ -340,7 +346,7 @@ func runC13(ctx *Ctx) *Result {
 		dir := filepath.Join(tmp, fmt.Sprintf("c%d", caseNo))
 		os.MkdirAll(filepath.Join(dir, "policies"), 0755)
 		os.WriteFile(filepath.Join(dir, ".netspoc-approve"), []byte("basedir = "+dir+"\n"), 0644)
-		w := &c13World{dir: dir, cfg: &program.Config{BaseDir: dir}, dev: []int{0, 0, 0, 0, 0, 0}, maBinary: bin}
+		w := &c13World{dir: dir, cfg: &program.Config{BaseDir: dir}, dev: []int{0, 0, 0, 0, 0, 0}, maBinary: bin, v6decoy: caseNo%2 == 0}
 		var impl []string
 		for k, e := range es {
 			w.apply(e, rng)
@@ -440,6 +446,10 @@ func runC13(ctx *Ctx) *Result {
 			{Kind: "np", Arg: "1,0,0,0,0,0"}, {Kind: "fail"}},
 		{{Kind: "np", Arg: "1,0,0,0,0,0"}, {Kind: "ok"}, {Kind: "np", Arg: "0,0,0,0,0,0"}, {Kind: "rm", Arg: "1"}},
 		{{Kind: "np", Arg: "1,0,0,0,0,0"}, {Kind: "ok"}, {Kind: "fail"}},
+		// the current policy is the first to have IPv6 (or IPv4-directory) code for the device
+		{{Kind: "np", Arg: "1,0,0,0,0,0"}, {Kind: "ok"}, {Kind: "np", Arg: "1,0,3,0,0,0"}},
+		{{Kind: "np", Arg: "1,0,0,0,0,0"}, {Kind: "ok"}, {Kind: "np", Arg: "1,0,3,4,0,0"}, {Kind: "bz", Arg: "1"}},
+		{{Kind: "np", Arg: "1,0,0,0,0,0"}, {Kind: "cmp"}, {Kind: "np", Arg: "1,0,0,0,6,7"}},
 		// two UPTODATE compares across a policy change and a manual change, then a revert / a removal
 		{{Kind: "np", Arg: "1,0,0,0,0,0"}, {Kind: "drift", Arg: "1,0,0,0,0,0"}, {Kind: "cmp"}, {Kind: "np", Arg: "2,0,0,0,0,0"},
 			{Kind: "drift", Arg: "2,0,0,0,0,0"}, {Kind: "cmp"}, {Kind: "np", Arg: "1,0,0,0,0,0"}},
